@@ -303,7 +303,7 @@ pub open spec fn ev(e: IdedExpr, env: Env, fs: Funcs) -> SRes
 {
     match e.expr {
         Expr::Literal(v) => Ok(val_view(v)),
-        Expr::Ident(name) => match alookup(env, name) { Some(sv) => Ok(sv), None => Err(ErrClass::Undeclared) },
+        Expr::Ident(name) => match alookup(env, name) { Some(sv) => Ok(sv), None => Err(ErrClass::Undeclared(name@)) },
         Expr::Call(c) => {
             if is_op(c, operators::CONDITIONAL, 3) {
                 // exactly one branch is evaluated (C06)
@@ -325,7 +325,7 @@ pub open spec fn ev(e: IdedExpr, env: Env, fs: Funcs) -> SRes
             } else {
                 // function call: the name is looked up in the registry only; the receiver is evaluated first, the
                 // arguments are handed over unevaluated (C07) -- what the function does with them is host_spec
-                if !fs.contains_key(c.func_name@) { Err(ErrClass::Undeclared) } else {
+                if !fs.contains_key(c.func_name@) { Err(ErrClass::Undeclared(c.func_name@)) } else {
                     match c.target {
                         None => host_spec(fs[c.func_name@], None, c.args@, env, fs),
                         Some(t) => match ev(*t, env, fs) { Err(x) => Err(x), Ok(tv) => host_spec(fs[c.func_name@], Some(tv), c.args@, env, fs) },
